@@ -93,11 +93,12 @@ def _lap(ctx, label):
 
 
 def run(ctx):
-    if not _tr.get("ok"):
-        return
     _lap(ctx, "coq+build")
-    locked = _tr["locked"]
-    ctx.note("translator: locked=%s discipline=%s (%s); anchors %s" % (locked, _tr["discipline"], _tr["detail"], _tr["anchors"]))
+    # locked: True / False as read off the source; None when the translator did not recognise the code
+    # (tie already reported broken in prepare; the implementation is still searched for a failing run)
+    locked = _tr["locked"] if _tr.get("ok") else None
+    psig = "pool-unsynchronised" if locked is False else ("pool-race-despite-sync" if locked else "pool-race-sync-not-recognised")
+    ctx.note("translator: locked=%s discipline=%s (%s); anchors %s" % (locked, _tr.get("discipline"), _tr.get("detail"), _tr.get("anchors")))
     exe, log = vlib.build_extracted("conc")
     if not exe:
         ctx.tie_broken("extraction-conc", log)
@@ -107,7 +108,7 @@ def run(ctx):
         ctx.tie_broken("harness-h_threads", hlog)
         return
     rc, out = vlib.sh(exe, input="consts\n", timeout=60)
-    if ("locked=%s" % ("true" if locked else "false")) not in out:
+    if locked is not None and ("locked=%s" % ("true" if locked else "false")) not in out:
         ctx.tie_broken("gen-poolsync-stale", "extracted constant says %r, translator says locked=%s" % (out.strip(), locked))
         return
 
@@ -133,7 +134,7 @@ def run(ctx):
 
     _lap(ctx, "a-sequences")
     # ---- (b) the model under PRNG schedules, with the regenerated parameter -----------------------------
-    nsch = 400 if ctx.quick else 5000
+    nsch = (400 if ctx.quick else 5000) if locked is not None else 0
     reqs = []
     for _ in range(nsch):
         k = ctx.rng.randint(2, 4)
@@ -145,7 +146,9 @@ def run(ctx):
     rc, out = vlib.sh(exe, input="\n".join(reqs) + "\n", timeout=900)
     lines = out.strip().split("\n")
     nbad = 0
-    if rc != 0 or len(lines) != len(reqs):
+    if not reqs:
+        pass
+    elif rc != 0 or len(lines) != len(reqs):
         ctx.tie_broken("pool-model-schedules", "rc=%s lines=%d/%d %s" % (rc, len(lines), len(reqs), out[-300:]))
     else:
         for q, l in zip(reqs, lines):
@@ -182,18 +185,18 @@ def run(ctx):
                                   "ThreadSanitizer: %s at %s" % (rp["kind"], "; ".join(rp["frames"]) or rp["location"]),
                                   dict(cmd=" ".join(cmd), report=rp["text"]))
             if rc not in (0, 66) and not reps:
-                ctx.violation(("pool-unsynchronised:stress-crash" if not locked else "stress:crash"),
+                ctx.violation(psig + ":stress-crash",
                               "big-number stress under TSan died rc=%s: %s" % (rc, out[-300:]), dict(cmd=" ".join(cmd), out=out[-1500:]))
         if pool_race:
             cmd, rp = pool_race
             if locked:
                 ctx.tie_broken("pool-sync-translator-vs-tsan", "translator says the pool is synchronised, ThreadSanitizer reports a race on it: " + "; ".join(rp["frames"]))
-            ctx.violation("pool-unsynchronised:tsan",
+            ctx.violation(psig + ":tsan",
                           "ThreadSanitizer: %s on %s (%s) - the concrete form of the schedule of pool_race_unlocked" % (
                               rp["kind"], rp["location"] or "FastRational::pool", "; ".join(rp["frames"])),
                           dict(cmd=" ".join(cmd), env=conclib.TSAN_ENV, report=rp["text"],
                                how="build/harness/h_threads_tsan stress 2 40 1  (g++ -fsanitize=thread h_threads.cc FastRational.cc -DH_NO_SOLVER)"))
-        elif not locked:
+        elif locked is False:
             ctx.note("locked=false but ThreadSanitizer reported no race on the pool in this run")
 
     for T in ([4] if ctx.quick else [2, 4, 8]):
@@ -205,7 +208,7 @@ def run(ctx):
                  sample=dict(cmd=" ".join(cmd[1:]), rc=rc, out=out.strip()[-160:]))
         if not okline:
             what = "mismatch" if "MISMATCH" in out else "crash"
-            ctx.violation(("pool-unsynchronised:stress-" + what) if not locked else "stress:" + what,
+            ctx.violation(psig + ":stress-" + what,
                           "%d threads of big-number FastRational arithmetic: %s (rc=%s) %s" % (T, what, rc, out.strip()[-200:]),
                           dict(cmd=" ".join(cmd), rc=rc, out=out[-1500:]))
 
@@ -250,7 +253,7 @@ def run(ctx):
                 lines = [l.split() for l in out.split("\n") if l.startswith("inst ")]
                 crashed = rc != 0 or len(lines) != len(insts)
                 # every arithmetic instance touches the pool: FastRational(const char*) takes a cell for each parsed numeral
-                sig_pref = "pool-unsynchronised:" if (gname in ("arith", "liacuts") and not locked) else "concurrent-solve:%s:" % gname
+                sig_pref = "pool-unsynchronised:" if (gname in ("arith", "liacuts") and locked is False) else "concurrent-solve:%s:" % gname
                 if crashed:
                     for t, _ in insts:
                         ctx.case(key="%s:%d:%s" % (gname, T, t), nontrivial=True, kind="threads-%s:%d:crashed-run" % (gname, T))
@@ -300,8 +303,8 @@ def run(ctx):
                 pool_seen = any(rp["on_pool"] for rp in reps)
                 for rp in reps:
                     if rp["on_pool"]:
-                        sig = "pool-unsynchronised:tsan-solver"
-                    elif pool_seen and not locked and rp["in_fastrational"]:
+                        sig = psig + ":tsan-solver"
+                    elif pool_seen and locked is False and rp["in_fastrational"]:
                         # two threads inside one FastRational's GMP cell: the "two owners" state itself
                         sig = "pool-unsynchronised:tsan-cell-shared"
                     else:
